@@ -220,6 +220,7 @@ def check_corruption(case, ctx):
     masks = [1, 2, 4, 8, 16, 32, 64, 128]
     if case["mask"] not in masks:
         masks.append(case["mask"])
+    first = None  # first violation; the sweep over all positions is completed before it is raised
     for pos in range(len(good)):
         reg = p2p.region(pos)
         for m in masks:
@@ -237,21 +238,23 @@ def check_corruption(case, ctx):
                 continue
             if ref is None:
                 ctx.label("ref_rejects:" + reg)
-                if accepted:
+                if accepted and first is None:
                     declared = struct.unpack_from("<I", data, 16)[0]
                     why = reg
                     if reg == "length":
                         why = "length_larger" if declared > len(payload) else "length_smaller"
-                    raise Violation(
+                    first = Violation(
                         "corruption/accepted:" + why,
                         f"net={net} byte {pos} ^ {m:#x}: header={data[:24].hex()} declared={declared} "
                         f"bytes_after_header={len(data) - 24} returned_payload={len(got.payload)}")
             else:
-                # only possible with a checksum collision or a length change that still verifies
+                # only possible with a 32-bit checksum collision
                 ctx.label("ref_accepts:" + reg)
                 require(accepted, "corruption/refused_valid:" + reg, data[:24].hex())
                 require(got.payload == ref[1], "corruption/payload_differs:" + reg)
     ctx.label("positions", len(good))
+    if first is not None:
+        raise first
 
 
 # ------------------------------------------------------------------ primitives
@@ -403,15 +406,20 @@ def u8():
     return st.one_of(st.sampled_from([0, 1, 0x7F, 0x80, 0xFF]), st.integers(0, 255))
 
 
-def counts(tier):
+def counts(tier, big=True):
+    """list lengths across the compact-size boundaries; 65535/65536 only for parsers (the library's
+    serialisers append to an immutable bytes object, which is quadratic) and with a low weight"""
     small = st.one_of(st.sampled_from([0, 1, 2, 3, 252, 253, 254, 300]), st.integers(0, 20))
-    big = st.sampled_from([65535, 65536])
-    return st.one_of(*([small] * (9 if tier == "thorough" else 39) + [big]))
+    if not big:
+        return small
+    one_in = 40 if tier == "thorough" else 300
+    return st.tuples(st.binary(min_size=2, max_size=2), small, st.sampled_from([65535, 65536])).map(
+        lambda t: t[2] if int.from_bytes(t[0], "big") % one_in == 1 else t[1])
 
 
-def listed(tier):
+def listed(tier, big=True):
     """a list of 32-byte values: explicit generated head + tail derived from a seed"""
-    return {"count": counts(tier), "head": st.lists(gen.b32(), max_size=4),
+    return {"count": counts(tier, big), "head": st.lists(gen.b32(), max_size=4),
             "seed": st.binary(min_size=4, max_size=8)}
 
 
@@ -455,11 +463,11 @@ def msg_strategy(tier):
           ua_len=st.one_of(st.sampled_from(UA_LENS), st.integers(0, 60)),
           pat=st.binary(min_size=1, max_size=12), start_height=i32nn(), relay=st.booleans()),
         T("getheaders", version=u32(), start=gen.b32(), end=st.one_of(st.none(), gen.b32())),
-        T("headers", count=counts(tier), head=st.lists(header_fields(), max_size=3),
+        T("headers", count=counts(tier, big=(tier == "thorough")), head=st.lists(header_fields(), max_size=3),
           seed=st.binary(min_size=4, max_size=8)),
         T("getdata", types=st.lists(st.one_of(
             st.sampled_from([1, 2, 3, 4, (1 << 30) + 1, (1 << 30) + 2, 0, 0xFFFFFFFF]), u32()),
-            min_size=4, max_size=4), **listed(tier)),
+            min_size=4, max_size=4), **listed(tier, big=False)),
         T("ping", nonce=st.binary(min_size=8, max_size=8)),
         T("pong", nonce=st.binary(min_size=8, max_size=8)),
         T("getcfilters", ftype=u8(), start_height=u32(), stop=gen.b32()),
